@@ -359,7 +359,7 @@ def _run_plan(plan, trace=False):
                     master_blob(h["lib"], h["readonly"], h["coll_bufsize"])
         for f in plan["faults"]:
             kern.faults.append(K.Fault.from_json(f))
-        sched = Scheduler(kern, plan["sched"]["seed"], plan["sched"]["strategy"], max_steps=60000, max_time=300.0)
+        sched = Scheduler(kern, plan["sched"]["seed"], plan["sched"]["strategy"], max_steps=120000, max_time=1500.0)
 
         def on_step(s):
             n = len(kern.waiting_on)
@@ -646,7 +646,9 @@ def _oracles(plan, kern, sched, sessions, marks, res, limit_hit):
             for s in p["script"]:
                 nsess += 1
                 bound += s["think"] + (s["timeout"] or 0) + sum(o.get("d", 0) for o in s["ops"])
-        bound += 0.25 * (nsess + 1)
+        # (2 s of slack per session: the statement promises progress, not a polling interval - an implementation that polls the
+        #  lock every second instead of every 0.1 s keeps every clause)
+        bound += 2.0 * (nsess + 1)
         bound += plan.get("latency", 0) * (kern.counters["read"] + kern.counters["write"] + kern.counters["open"] + kern.counters["close"] + kern.counters["truncate"])
         if kern.now > bound:
             res.violate("P-slow", "C04|P-slow", f"run finished at t={kern.now:.3f}s, later than the plan-derived bound {bound:.3f}s")
